@@ -183,3 +183,71 @@ func (c *rpcClient) nfsStatus(proc uint32, args []byte) (uint64, []byte) {
 	}
 	return uint64(binary.BigEndian.Uint32(res)), res[4:]
 }
+
+// ---- segmented sending (C28): the same calls, delivered to the server in arbitrary TCP pieces ----
+
+// record frames msg as an RFC 1831 record of len(frags)+1 fragments: frags gives the sizes of the non-last
+// fragments (the last fragment takes the rest).  marks receives the stream offsets of the fragment headers.
+func record(msg []byte, frags []int) (out []byte, marks []int) {
+	for _, n := range frags {
+		if n > len(msg) {
+			n = len(msg)
+		}
+		marks = append(marks, len(out))
+		out = append(out, be32(uint32(n))...)
+		out = append(out, msg[:n]...)
+		msg = msg[n:]
+	}
+	marks = append(marks, len(out))
+	out = append(out, be32(0x80000000|uint32(len(msg)))...)
+	return append(out, msg...), marks
+}
+
+// sendCut writes stream in pieces cut at the given offsets (ascending, inside the stream), pausing gap between
+// pieces so that they leave as separate TCP segments (TCP_NODELAY is on) and arrive separately.
+func (c *rpcClient) sendCut(stream []byte, cuts []int, gap time.Duration) ([]int, error) {
+	c.conn.SetDeadline(time.Now().Add(c.timeout + time.Duration(len(cuts))*gap))
+	var sizes []int
+	prev := 0
+	for _, k := range append(append([]int{}, cuts...), len(stream)) {
+		if k <= prev || k > len(stream) {
+			continue
+		}
+		if prev > 0 {
+			time.Sleep(gap)
+		}
+		if _, err := c.conn.Write(stream[prev:k]); err != nil {
+			return sizes, err
+		}
+		sizes = append(sizes, k-prev)
+		prev = k
+	}
+	return sizes, nil
+}
+
+// readReply reads one reply record (all fragments) and returns the raw bytes as received.
+func (c *rpcClient) readReply() (raw []byte, err error) {
+	c.conn.SetReadDeadline(time.Now().Add(c.timeout))
+	for {
+		hdr := make([]byte, 4)
+		if _, err = io.ReadFull(c.conn, hdr); err != nil {
+			return raw, err
+		}
+		raw = append(raw, hdr...)
+		h := binary.BigEndian.Uint32(hdr)
+		n := h & 0x7fffffff
+		if n > 1<<22 {
+			return raw, fmt.Errorf("fragment of %d bytes", n)
+		}
+		body := make([]byte, n)
+		if _, err = io.ReadFull(c.conn, body); err != nil {
+			return append(raw, body...), err
+		}
+		raw = append(raw, body...)
+		if h&0x80000000 != 0 {
+			return raw, nil
+		}
+	}
+}
+
+func (c *rpcClient) nextXid() uint32 { c.xid++; return c.xid }
